@@ -1,7 +1,7 @@
 import beacon
 
 MANIFEST = dict(
-    text="The executable Coq Spec of process_slots (per-slot root caching, process_epoch with every sub-transition of phase0/altair/bellatrix/capella/deneb, in-place upgrade_to_* cascade at fork epochs) is run, extracted to OCaml, on the SSZ pre-state of every slot advance of every generated chain (empty slots, epoch boundaries with leaks, ejections, slashing penalties, activation queues, sync-period boundaries, fork boundaries): post-state bytes must be identical. Coq theorems: structural rules of process_slots/process_slot and, from Beacon/Refine, Impl = Spec refinements of zrnt's batched algorithms (exit queue, activation queue, ...). Partial: refinement is proved sub-transition by sub-transition (theorem list in the evidence); the rest is tied by correspondence.",
+    text="The executable Coq Spec of process_slots (per-slot root caching, process_epoch with every sub-transition of phase0/altair/bellatrix/capella/deneb, in-place upgrade_to_* cascade at fork epochs) is run, extracted to OCaml, on the SSZ pre-state of every slot advance of every generated chain (empty slots, epoch boundaries with leaks, ejections, slashing penalties, activation queues, sync-period boundaries, fork boundaries): post-state bytes must be identical. Coq theorems: structural rules of process_slots/process_slot and, from Beacon/Refine, Impl = Spec refinements: every epoch sub-transition of zrnt's batched algorithms (justification, rewards and penalties of phase0 and altair, inactivity, registry with exit and activation queues, slashings, resets, historical roots/summaries, participation rotation), the sync-committee rotation with zrnt's sampling loop, each UpgradeTo<Fork> and the UpgradeMaybe cascade, ProcessSlot, and their assembly into ProcessEpoch, one slot step and the ProcessSlots loop over any number of slots, epochs and fork boundaries (C02_process_slots_refines_partial). The Impl models are themselves executed against the Go functions (streams C02IMPL, C02ASM). Partial: the assembled theorems assume the per-boundary hypotheses EpochInv/MidBounds/StepOk (bounds that exclude uint64 saturation between zrnt's summed and the spec's sequential delta application, epoch >= 1) instead of deriving them from reachability; outside them only the correspondence applies.",
     note="Trusted: Coq kernel; extraction + OCaml driver; pyspec transliteration; BLS aggregate-pubkey oracle; chain generator; Bounds hypotheses. No axioms.",
     technique="Coq refinement proofs + extracted-Spec vs Go differential correspondence on generated chains",
     design="4/C02")
@@ -23,4 +23,4 @@ def make_check():
         rule="every `slots` record (ProcessSlots from a recorded pre-state to a target slot, single and multi-slot jumps, across epoch and fork boundaries): zrnt's post-state bytes vs the Spec's. distinct = (chain, record)",
         make_targets=["Properties/C02.vo", "Beacon/Run.vo", "Beacon/Refine/ImplRun.vo", "Beacon/Refine/AsmRun.vo"], trust=beacon.BEACON_TRUST,
         extra_streams=["C02IMPL", "C02ASM"],
-        model_files=["coq/Beacon/Spec/*.v", "coq/Beacon/Run.v", "coq/Beacon/Proofs/TransitionRules.v", "coq/Properties/C02.v"])
+        model_files=["coq/Beacon/Spec/*.v", "coq/Beacon/Run.v", "coq/Beacon/Proofs/TransitionRules.v", "coq/Beacon/Impl/*.v", "coq/Beacon/Refine/*.v", "coq/Properties/C02.v"])
